@@ -78,6 +78,9 @@ type Rule struct {
 	FloorBy map[string]int
 	Run     func(c *Ctx) []Obligation
 	IR      string // "ast", "cfg", "ssa", "callgraph"
+	// Narrow, if set, is applied to every obligation after Run: it may restrict Props for
+	// obligations that serve only some of the rule's properties.
+	Narrow func(o *Obligation)
 }
 
 var rules []*Rule
